@@ -99,6 +99,67 @@ def case_symmetry(case):
     return {"v": v[:8], "nt": True, "n": cnt[0], "obs": {"worst_rel_err": worst[0], "towers": len(towers)}}
 
 
+def halo_configs(tier):
+    profs = ("most_aniso", "mostm_s") if tier == "quick" else sl.PROFILE_SETS
+    halos = (None, 13.0, 20.0) if tier == "quick" else (None, 13.0, 20.0, 30.0, 45.0, 7.0)
+    # only sizes that are odd in BOTH directions: their padded grids have no Nyquist component, which could not be
+    # filtered out of a cropped field (with even padded sizes the unchanged tree differs by ~2e-2 there - the
+    # property's Nyquist carve-out)
+    grids = [((7, 5), (70.0, 75.0)), ((5, 7), (75.0, 70.0))] if tier == "quick" else [((7, 5), (70.0, 75.0)), ((5, 7), (75.0, 70.0)), ((9, 7), (90.0, 105.0)), ((5, 5), (60.0, 40.0))]
+    for p, g, h, fp in itertools.product(profs, grids, halos, (True, False)):
+        yield {"prof": p, "grid": g[0], "dom": g[1], "halo": h, "modes": [64, 64], "footprint": fp}
+
+
+def case_halo_symmetry(case):
+    """mirror images with a zero-flux halo: the padded periodic domain is symmetric about the CENTRE of the inner
+    domain, so the mirror is the flip i -> n-1-i (tower x -> (n-1)dx - x); transposition as before."""
+    S0 = sl.solver()
+    seed = int(os.environ.get("VERIF_SEED", "0") or 0)
+    nx, ny = case["grid"]
+    dom = tuple(case["dom"])
+    dx, dy = dom[0] / nx, dom[1] / ny
+    z, prof = sl.build_profiles(case["prof"], 4)
+    u, vv, Kx, Ky, Kz = prof
+    levels = [2, 4]
+    halo = case["halo"]
+    nxe, nye, px, py = sl.padded_size(nx, ny, dom, halo)
+    modes = sl.resolve_modes(case["modes"], nx, ny, dom, halo)
+    fp = case["footprint"]
+    rng = core.case_rng(seed, case)
+    q = rng.standard_normal((ny, nx))
+    cnt = [0]
+
+    def S(q, prof, dom, modes, mp, halo=halo):
+        cnt[0] += 1
+        _, c, f = S0(q, z, prof, dom, levels, modes=modes, halo=halo, precision="double", footprint=fp, meas_pt=mp)
+        return np.stack([np.asarray(c, dtype=float), np.asarray(f, dtype=float)])
+
+    v = []
+    worst = [0.0]
+    even = (nxe % 2 == 0, nye % 2 == 0)
+
+    def cmp(label, got, want, what):
+        if even[0] or even[1]:
+            raise core.HarnessError("halo symmetry case with an even padded size")
+        tol = 1e-9
+        e = sl.relerr(got, want, max(np.abs(want).max(), 1e-300))
+        worst[0] = max(worst[0], e)
+        if not e <= tol:
+            v.append({"sub": label, "sig": "%s/%s" % (label, "footprint" if fp else "dispersion"), "msg": "%s: deviation %.2e of field maximum (tol %.0e); config %s" % (what, e, tol, core.canon(case))})
+
+    towers = [(2, 1), (nx - 2, ny - 1)] if fp else [(0, 0)]
+    for (ti, tj) in towers:
+        mp = (ti * dx, tj * dy) if fp else (0.0, 0.0)
+        base = S(q, prof, dom, modes, mp)
+        mpx = ((nx - 1 - ti) * dx, mp[1]) if fp else mp
+        mpy = (mp[0], (ny - 1 - tj) * dy) if fp else mp
+        r = S(q[:, ::-1].copy(), (-u, vv, Kx, Ky, Kz), dom, modes, mpx)
+        cmp("mirror-x-halo", r, base[..., ::-1], "x-mirrored problem with halo %r (tower cell %d,%d)" % (halo, ti, tj))
+        r = S(q[::-1, :].copy(), (u, -vv, Kx, Ky, Kz), dom, modes, mpy)
+        cmp("mirror-y-halo", r, base[..., ::-1, :], "y-mirrored problem with halo %r (tower cell %d,%d)" % (halo, ti, tj))
+    return {"v": v[:6], "nt": True, "n": cnt[0], "obs": {"worst_rel_err": worst[0], "padded": [nxe, nye]}}
+
+
 def run(ctx):
     os.environ["VERIF_SEED"] = str(ctx.seed)
     core.warm_numba()
@@ -107,3 +168,4 @@ def run(ctx):
         "{mirror-x, mirror-y, mirror-xy, transpose, 4 length scales, 4 velocity scales}; configurations are distinct lattice points; evaluations counts solver executions"
     )
     ctx.run_cases(case_symmetry, configs(ctx.tier), sub="symmetry", chunksize=1)
+    ctx.run_cases(case_halo_symmetry, halo_configs(ctx.tier), sub="symmetry-with-halo", chunksize=1)
